@@ -9,12 +9,12 @@ namespace vf {
 
 const char* property_id() { return "C07"; }
 unsigned case_timeout_s() { return 300; }
-uint64_t num_cases(bool thorough) { return (thorough ? 15000 : 2000) * c07::num_types(); }   // item types round-robin
+uint64_t num_cases(bool thorough) { return c07::cases_per_type(thorough) * c07::num_types(); }   // item types round-robin
 void final_report() {}
 
 struct KllFam {
   static const char* name() { return "kll"; }
-  template<typename T> using SK = kll_sketch<T, typename c07::Tr<T>::Cmp>;
+  template<typename K> using SK = kll_sketch<typename c07::Tr<K>::T, typename c07::Tr<K>::Cmp>;
   struct Cfg {};
   static Cfg cfg(Rng&) { return Cfg(); }
   static std::string cfg_str(const Cfg&) { return "kll"; }
@@ -23,35 +23,46 @@ struct KllFam {
     if (thorough && r.chance(0.1)) return r.pick({400u, 1000u, 3000u});
     return ks[r.below(sizeof ks / sizeof ks[0])];
   }
-  template<typename T> static SK<T> make(uint32_t k, const Cfg&) { return SK<T>(static_cast<uint16_t>(k)); }
+  template<typename K> static SK<K> make(uint32_t k, const Cfg&, const typename c07::Tr<K>::Cmp& cmp) { return SK<K>(static_cast<uint16_t>(k), cmp); }
+  template<typename K> static SK<K> roundtrip(const SK<K>& sk, const typename c07::Tr<K>::Cmp& cmp, bool stream) {
+    typedef typename c07::Tr<K>::T T;
+    if (stream) {
+      std::stringstream ss(std::ios::in | std::ios::out | std::ios::binary);
+      sk.serialize(ss);
+      return SK<K>::deserialize(ss, serde<T>(), cmp);
+    }
+    const auto bytes = sk.serialize();
+    return SK<K>::deserialize(bytes.data(), bytes.size(), serde<T>(), cmp);
+  }
+
   static uint64_t exact_cap(uint32_t k) { return k; }
 
   // stated space bound: get_max_serialized_size_bytes(k, n) "is an overestimate to make sure actual sketches
   // don't exceed it"; it is 20 + 4*L + (max_retained + 2) * item_size with L = 1 + floor(log2 n)
-  template<typename T, typename std::enable_if<std::is_arithmetic<T>::value, int>::type = 0>
+  template<typename K, typename std::enable_if<std::is_arithmetic<typename c07::Tr<K>::T>::value, int>::type = 0>
   static uint64_t max_retained(uint16_t k, uint64_t n, uint32_t L) {
-    const size_t mx = SK<T>::get_max_serialized_size_bytes(k, n);
-    return (mx - 20 - 4 * L) / sizeof(T) - 2;
+    const size_t mx = SK<K>::get_max_serialized_size_bytes(k, n);
+    return (mx - 20 - 4 * L) / sizeof(typename c07::Tr<K>::T) - 2;
   }
-  template<typename T, typename std::enable_if<!std::is_arithmetic<T>::value, int>::type = 0>
+  template<typename K, typename std::enable_if<!std::is_arithmetic<typename c07::Tr<K>::T>::value, int>::type = 0>
   static uint64_t max_retained(uint16_t k, uint64_t n, uint32_t L) {
-    const size_t mx = SK<T>::get_max_serialized_size_bytes(k, n, static_cast<size_t>(1));
+    const size_t mx = SK<K>::get_max_serialized_size_bytes(k, n, static_cast<size_t>(1));
     return mx - 20 - 4 * L - 2;
   }
-  template<typename T, typename std::enable_if<std::is_arithmetic<T>::value, int>::type = 0>
-  static void size_bound(const SK<T>& sk, uint64_t n, const std::string& ctx) {
+  template<typename K, typename std::enable_if<std::is_arithmetic<typename c07::Tr<K>::T>::value, int>::type = 0>
+  static void size_bound(const SK<K>& sk, uint64_t n, const std::string& ctx) {
     const size_t actual = sk.get_serialized_size_bytes();
-    const size_t mx = SK<T>::get_max_serialized_size_bytes(sk.get_k(), n);
+    const size_t mx = SK<K>::get_max_serialized_size_bytes(sk.get_k(), n);
     VF_CHECK(actual <= mx, "kll|space-bound|serialized-size-above-stated-max", ctx + " size=" + std::to_string(actual) + " max=" + std::to_string(mx));
   }
-  template<typename T, typename std::enable_if<!std::is_arithmetic<T>::value, int>::type = 0>
-  static void size_bound(const SK<T>&, uint64_t, const std::string&) {}
+  template<typename K, typename std::enable_if<!std::is_arithmetic<typename c07::Tr<K>::T>::value, int>::type = 0>
+  static void size_bound(const SK<K>&, uint64_t, const std::string&) {}
 
-  template<typename T> static void bound(const SK<T>& sk, uint32_t retained, uint64_t n, const std::string& ctx) {
+  template<typename K> static void bound(const SK<K>& sk, uint32_t retained, uint64_t n, const std::string& ctx) {
     const uint32_t L = n == 0 ? 1 : 1 + c07::floor_log2(n);
-    const uint64_t cap = max_retained<T>(sk.get_k(), n, L);
+    const uint64_t cap = max_retained<K>(sk.get_k(), n, L);
     VF_CHECK(retained <= cap, "kll|space-bound|retained-above-stated-max", ctx + " max_retained=" + std::to_string(cap));
-    size_bound<T>(sk, n, ctx);
+    size_bound<K>(sk, n, ctx);
   }
   template<typename T> static void counters(const SK<T>&, const c07::Observed& o, bool after_merge) {
     if (o.empty) return;
